@@ -8,14 +8,15 @@ import (
 	"github.com/NethermindEth/juno/db/memory"
 )
 
-// fdb is a db.KeyValueStore over memory.Database through which every COMMIT passes: direct
+// fdb is a db.KeyValueStore over an in-memory database (imageDB: juno's memory.Database, or the ordered tree
+// store of treedb_test.go for the long base chains) through which every COMMIT passes: direct
 // Put/Delete/DeleteRange on the store and every Batch.Write (including the batches the Update/Write
 // helpers create). After each commit the optional hook runs (in the committing goroutine) with the
 // 1-based number of the commit since the last arm(); the harness uses it to
-//   - freeze a crash image (memory.Database.Copy) after the k-th commit, and
+//   - freeze a crash image (a copy of the database) after the k-th commit, and
 //   - cancel the pruner's context at the k-th commit.
 type fdb struct {
-	inner *memory.Database
+	inner imageDB
 
 	mu      sync.Mutex
 	commits int
@@ -24,7 +25,10 @@ type fdb struct {
 
 var _ db.KeyValueStore = (*fdb)(nil)
 
-func newFdb(inner *memory.Database) *fdb { return &fdb{inner: inner} }
+func newFdb(inner *memory.Database) *fdb { return &fdb{inner: memImg{inner}} }
+
+// newFdbOn wraps any image (a copy of a crash image, a clone of a base chain).
+func newFdbOn(inner imageDB) *fdb { return &fdb{inner: inner} }
 
 // arm resets the commit counter and installs the hook (nil = only count).
 func (f *fdb) arm(hook func(k int)) {
